@@ -43,7 +43,7 @@ theorem rEx_junc (d : Backend) (any : Bool) (L R : Ex) :
       wrap (greater d (shapeOf R) (.bin (junc any))) (rEx d R) := by
   have h25 : ∀ n : Nat, n ≤ 1 → (Op.std n == Op.std 25) = false := by
     intro n hn; rw [beq_eq_false_iff_ne]; intro h; injection h with h; omega
-  cases any <;> simp [rEx, junc, Oper.isBetween, Oper.isLike, Oper.isBin, Op.isStd, h25]
+  cases any <;> simp [rEx, junc, Oper.isBetween, Oper.isLike, Oper.takesEscape, Oper.isBin, Op.isStd, h25]
 
 theorem isBinWith_shape (e : Ex) (o : Op) : isBinWith e (· == o) = (shapeOf e == .bin o) := by
   cases e <;> simp [isBinWith, shapeOf]
